@@ -262,6 +262,24 @@ func voProject(o *Options, tmp string) (map[string]interface{}, string) {
 		return nil, "several exiting options set"
 	}
 	m["exit"] = exit
+	// --tmux geometry and the --tmux / --height arbitration exactly as Run() decides it (core.go: the popup is used
+	// iff opts.Tmux != nil && opts.Tmux.index >= opts.Height.index, inside a tmux session)
+	sz := func(s sizeSpec) (map[string]interface{}, bool) {
+		return map[string]interface{}{"size": int(s.size), "percent": s.percent}, s.size == float64(int(s.size))
+	}
+	if o.Tmux == nil {
+		z := map[string]interface{}{"size": 0, "percent": false}
+		m["tmux"] = map[string]interface{}{"on": false, "pos": "", "w": z, "h": z, "border": false}
+		m["popup"] = false
+	} else {
+		w, ok1 := sz(o.Tmux.width)
+		h, ok2 := sz(o.Tmux.height)
+		if !ok1 || !ok2 {
+			return nil, "fractional tmux size"
+		}
+		m["tmux"] = map[string]interface{}{"on": true, "pos": voPos[o.Tmux.position], "w": w, "h": h, "border": o.Tmux.border}
+		m["popup"] = o.Tmux.index >= o.Height.index
+	}
 	return m, ""
 }
 
